@@ -1205,6 +1205,7 @@ class Interp:
         return Obj(attrs, self.prog.cls(clsqual))
 
     def call(self, fn, args=(), kw=None):
+        _GLOBAL_TABLES.clear()          # module-level tables start every analysed call as they are written
         return call_fn(fn, list(args), dict(kw or {}), None)
 
     def construct(self, clsqual, args=(), kw=None):
@@ -1222,6 +1223,7 @@ class Interp:
 
 
 _GLOBAL_DEPTH = [0]
+_GLOBAL_TABLES = {}         # (module, expression identity) -> value of a module-level table during one analysed call (effects on it are seen)
 
 
 def _lookup_global(mod, name):
@@ -1247,13 +1249,19 @@ def wrap_prog(r):
         if isinstance(v, ast.Call) and isinstance(v.func, ast.Attribute) and v.func.attr == "getLogger":
             return Ext("logging.Logger")
         if isinstance(v, (ast.Dict, ast.Tuple, ast.List, ast.Lambda, ast.UnaryOp, ast.BinOp)) and len(r) > 2 and _GLOBAL_DEPTH[0] < 4:
-            # a table written out at module level (names, numbers, small functions): its value as written.  (Effects on it that
-            # survive from one call to the next are not followed: each look-up sees the table as written.)
+            # a table written out at module level (names, numbers, small functions): its value as written at the start of the analysed
+            # call (effects that survive from one call to the next are the business of the R-stateless / R-no-shared-state rules)
+            key = (r[2], id(v))
+            if key in _GLOBAL_TABLES:
+                return _GLOBAL_TABLES[key]
             _GLOBAL_DEPTH[0] += 1
             try:
-                return ev(v, Frame(r[2], {}, r[2] + ".<module>"))
+                val = ev(v, Frame(r[2], {}, r[2] + ".<module>"))
             finally:
                 _GLOBAL_DEPTH[0] -= 1
+            if isinstance(val, (Dct, Lst)):
+                _GLOBAL_TABLES[key] = val       # one object for the whole call: an update through one reference is seen through the others
+            return val
         return Unk("module-global")
     return Unk(f"global {r!r}")
 
